@@ -562,5 +562,7 @@ func Scenarios(repo string) []Scenario {
 	out = append(out, fileScenarios(repo)...)
 	out = append(out, migrationScenarios(repo)...)
 	out = append(out, processStateScenarios()...)
+	out = append(out, edgeScenarios()...)
+	out = append(out, envStateScenarios()...)
 	return out
 }
